@@ -37,7 +37,6 @@ package main
 //	math.Abs/Max/Min/Hypot/Sqrt/Cos/Sin/Pi ↦ rat: absR, max; rnum: RNum.abs, …
 //	math.Inf(1); math.Min(d, x)       ↦ none : Option α; Go.minInf d x  (d a variable initialised with math.Inf(1))
 //	f(args), x.m(args) (listed below) ↦ (← f' …)
-//	distPointToSegment(p, a, b)       ↦ GeomV.C03.distPointToSegment p a b   (model; its range guard recurses)
 //	for i, x := range xs { S } with return/continue in S, followed by R
 //	                                  ↦ let c ← Go.forRangeRet xs st (fun st i x => do S'), return e ↦ pure (.ret e),
 //	                                    continue / end of S ↦ pure (.next st); match c with | .ret v => pure v | .next st => R
@@ -57,6 +56,8 @@ package main
 //	var A, xA, yA float64                                       ↦ let acc := CAcc.zero
 //	cx /= 6 * d; cy /= 6 * d; A += w; xA += cx * w; yA += cy * w ↦ let acc := CAcc.add acc cx cy d w
 //	return Point{X: xA / A, Y: yA / A}                          ↦ pure (CAcc.finish acc)
+//	distPointToSegment's guard `if m := E; (m >= 0x1p500 || (m <= 0x1p-500 && m > 0)) && !math.IsInf(m, 0) { _, e := math.Frexp(m);
+//	k := math.Ldexp(1, e-1); return k * distPointToSegment(a, b, c) }`  ↦ match RNum.rescale E with | some k => k * core a b c | none => core …
 //	if … := centroidScale(…); … { …; return … } at the head     ↦ cut off: the function `<name>_core` is the code below this range guard
 
 import (
@@ -66,6 +67,7 @@ import (
 	"go/token"
 	"os"
 	"path/filepath"
+	"go/printer"
 	"strconv"
 	"strings"
 )
@@ -106,6 +108,7 @@ var fns = []fnInfo{
 	{"simplify.go", "", "dot", "dot", true, ""},
 	{"simplify.go", "", "norm", "norm", true, ""},
 	{"simplify.go", "", "d", "d", true, ""},
+	{"simplify.go", "", "distPointToSegment", "distPointToSegment", true, "dps"},
 	{"linestring.go", "LineString", "Distance", "lineString_Distance", true, "optfloat"},
 	{"multilinestring.go", "MultiLineString", "Distance", "multiLineString_Distance", true, "optfloat"},
 	{"point.go", "Point", "Buffer", "point_Buffer", true, ""},
@@ -330,8 +333,6 @@ func (t *tr) typeOf(e ast.Expr) string {
 					return "optfloat"
 				}
 			}
-			return "float64"
-		case "distPointToSegment":
 			return "float64"
 		case "NewBounds":
 			return "*Bounds"
@@ -681,18 +682,6 @@ func (t *tr) call(x *ast.CallExpr) string {
 			n = 2
 		}
 		return "(RNum." + strings.ToLower(tn[5:]) + " " + strings.Join(t.floatArgs(x, n), " ") + ")"
-	case "distPointToSegment":
-		if !t.fi.rnum || t.fi.pkg() != "geom" || len(x.Args) != 3 {
-			xfail("distPointToSegment here")
-		}
-		var as []string
-		for _, a := range x.Args {
-			if t.typeOf(a) != "Point" {
-				xfail("distPointToSegment of a %q", t.typeOf(a))
-			}
-			as = append(as, t.expr(a, ""))
-		}
-		return "(GeomV.C03.distPointToSegment " + strings.Join(as, " ") + ")"
 	case "NewBounds":
 		if t.fi.pkg() != "geom" || len(x.Args) != 0 {
 			xfail("NewBounds here")
@@ -1638,6 +1627,86 @@ func translateOpCentroid(fi fnInfo, fd *ast.FuncDecl) string {
 		fi.file, fi.name, fi.lean, g, t.leanType("Polygon"), t.leanType("centroid"), body.String())
 }
 
+func srcOf(n ast.Node) string {
+	var sb strings.Builder
+	printer.Fprint(&sb, token.NewFileSet(), n)
+	return sb.String()
+}
+
+// distPointToSegment: the range guard
+//
+//	if m := E; (m >= 0x1p500 || (m <= 0x1p-500 && m > 0)) && !math.IsInf(m, 0) {
+//		_, e := math.Frexp(m); k := math.Ldexp(1, e-1); return k * distPointToSegment(A1, A2, A3) }
+//
+// is the class's `RNum.rescale m` (Model.lean: `some k` with k that power of two when the condition holds), its
+// recursive call is the code below the guard (`distPointToSegment_core`): the guard does not fire on the rescaled copy.
+func translateDps(fi fnInfo, fd *ast.FuncDecl, t *tr, hdr, params string, paramNames []string) string {
+	stmts := fd.Body.List
+	gi := -1
+	for i, s := range stmts {
+		if x, ok := s.(*ast.IfStmt); ok && x.Init != nil {
+			gi = i
+			break
+		}
+	}
+	if gi < 0 {
+		xfail("no range guard `if m := …; … {`")
+	}
+	g := stmts[gi].(*ast.IfStmt)
+	in, ok := g.Init.(*ast.AssignStmt)
+	if !ok || in.Tok != token.DEFINE || len(in.Lhs) != 1 || !isIdent(in.Lhs[0], "m") || len(in.Rhs) != 1 || g.Else != nil || len(g.Body.List) != 3 {
+		xfail("shape of the range guard")
+	}
+	if c := srcOf(g.Cond); c != "(m >= 0x1p500 || (m <= 0x1p-500 && m > 0)) && !math.IsInf(m, 0)" {
+		xfail("condition of the range guard is %s", c)
+	}
+	if a, b := srcOf(g.Body.List[0]), srcOf(g.Body.List[1]); a != "_, e := math.Frexp(m)" || b != "k := math.Ldexp(1, e-1)" {
+		xfail("the range guard computes its factor by `%s; %s`", a, b)
+	}
+	ret, ok := g.Body.List[2].(*ast.ReturnStmt)
+	if !ok || len(ret.Results) != 1 {
+		xfail("the range guard does not end in return")
+	}
+	mul, ok := ret.Results[0].(*ast.BinaryExpr)
+	if !ok || mul.Op != token.MUL || !isIdent(mul.X, "k") {
+		xfail("the range guard does not return k * …")
+	}
+	rec, ok := mul.Y.(*ast.CallExpr)
+	if !ok || !isIdent(rec.Fun, fi.name) || len(rec.Args) != 3 {
+		xfail("the range guard does not call %s", fi.name)
+	}
+	for _, n := range []string{"m", "k", "e"} {
+		if _, used := t.vars[n]; used {
+			xfail("%s is also a parameter", n)
+		}
+	}
+	resultType[fi.lean] = "float64"
+	var core, guard strings.Builder
+	saved := t.save()
+	t.block(append(append([]ast.Stmt{}, stmts[:gi]...), stmts[gi+1:]...), "  ", "", &core)
+	t.vars = saved
+	// the guard: the statements before it, m, the match
+	pre := append(append([]ast.Stmt{}, stmts[:gi]...), &ast.ReturnStmt{Results: []ast.Expr{&ast.BasicLit{Kind: token.INT, Value: "0"}}})
+	t.block(pre, "  ", "", &guard)
+	gs := guard.String()
+	gs = gs[:strings.LastIndex(strings.TrimRight(gs, "\n"), "\n")+1] // drop the placeholder return
+	if ty := t.typeOf(in.Rhs[0]); ty != "float64" {
+		xfail("m is a %s", ty)
+	}
+	gs += "  let m := " + t.expr(in.Rhs[0], "float64") + "\n"
+	t.vars["k"] = "float64"
+	var as []string
+	for _, a := range rec.Args {
+		if t.typeOf(a) != "Point" {
+			xfail("recursive call with a %s", t.typeOf(a))
+		}
+		as = append(as, t.expr(a, "Point"))
+	}
+	gs += "  match RNum.rescale m with\n  | some k =>\n    pure (k * (← " + fi.lean + "_core " + strings.Join(as, " ") + "))\n  | none =>\n    pure (← " + fi.lean + "_core " + strings.Join(paramNames, " ") + ")\n"
+	return fmt.Sprintf("/-- %s: %s below its range guard -/\ndef %s_core %s%s : Go.M α := do\n%s\n/-- %s: %s (range guard: statement group, see extract.go) -/\ndef %s %s%s : Go.M α := do\n%s",
+		fi.file, fi.name, fi.lean, hdr, params, core.String(), fi.file, fi.name, fi.lean, hdr, params, gs)
+}
+
 func translate(fi fnInfo, fd *ast.FuncDecl) (text string) {
 	renameKeywords(fd)
 	if fi.ret == "opcentroid" {
@@ -1685,6 +1754,18 @@ func translate(fi fnInfo, fd *ast.FuncDecl) (text string) {
 			xfail("result type %s", rt)
 		}
 		rt = "centroid"
+	}
+	if fi.ret == "dps" {
+		if rt != "float64" || !fi.rnum || fd.Recv != nil {
+			xfail("result type %s", rt)
+		}
+		var names []string
+		for _, p := range fd.Type.Params.List {
+			for _, n := range p.Names {
+				names = append(names, n.Name)
+			}
+		}
+		return translateDps(fi, fd, t, "{α : Type} [RNum α] ", strings.Join(params, " "), names)
 	}
 	resultType[fi.lean] = rt
 	hdr := ""
